@@ -56,6 +56,21 @@ package slip
 //@   lemma-each c 0 255 unquoted-byte-lexes-as-token: needPipeMap[c] != 'x' ==> (valueMode[c] == 't' && tokenMode[c] == 'a')
 //@   lemma-each c 0 255 piped-byte-kept: (c != 124 && c != 92) ==> symbolMode[c] == 's'
 
+// Strings: between double quotes; the readable form is the JSON string encoding
+// of the whole text, the plain form is the text itself.
+//@ func slip.(String).Readably
+//@   property C03
+//@   option no-lambda
+//@   on-call AppendJSONString whole-text-not-html-safe: $arg0 == b && $arg1 == obj && !$arg2
+//@   ensures plain-copy: !old(p.Readably) ==> (len(result0) == len(b) + len(obj) + 2 && result0[len(b)] == '"' && result0[len(result0) - 1] == '"' && (forall j :: (0 <= j && j < len(obj)) ==> result0[len(b) + 1 + j] == obj[j]))
+//@   ensures prefix-kept: !old(p.Readably) ==> (forall j :: (0 <= j && j < len(b)) ==> result0[j] == old(b[j]))
+
+// Characters below space that have no name are written as #\u00XY with the two
+// hex digits of their code.
+//@ func slip.(Character).Append
+//@   property C03
+//@   ensures control-as-hex: (obj >= 0 && obj < 32 && len(specialCharacters[obj]) == 0) ==> (len(result0) == len(b) + 7 && result0[len(b)] == '#' && result0[len(b) + 1] == 92 && result0[len(b) + 2] == 'u' && result0[len(b) + 3] == '0' && result0[len(b) + 4] == '0' && result0[len(b) + 5] == hexChars[obj / 16] && result0[len(b) + 6] == hexChars[obj % 16])
+
 // Integers: the radix prefix written is the one for the base the digits are
 // written in (ndig/dig: abstract digit sequence of strconv.AppendInt).
 //@ func slip.(Fixnum).Readably
